@@ -107,8 +107,6 @@ def eligible(func, decorators):
         return False
     if _defines_closures(func):
         return False
-    if lexical_parent(func) is not None and free_names(func):
-        return False
     for n in ast.walk(func):
         if isinstance(n, (ast.Global, ast.Nonlocal)):
             return False
@@ -154,8 +152,10 @@ class LazyGenerators:
 
     def make_generator(self, interp, func, argvals, st, caller, receiver=None, is_method=True, closure_env=(), self_value=None, name=None):
         """The call func(**argvals) as a generator object; None when this generator is not followed step by step."""
-        if closure_env or not self.lazy_eligible(func):
+        if not self.lazy_eligible(func):
             return None
+        if (closure_env or (lexical_parent(func) is not None and free_names(func))) and not getattr(self, "closure_cells", False):
+            return None   # (a nested generator finds its free variables through the cells of the frame that made it)
         prog = self._program(func)
         method = is_method and getattr(func, "_class", None) is not None and bool(func.args.args)
         selfname = func.args.args[0].arg if method else None
@@ -164,12 +164,12 @@ class LazyGenerators:
         n = st.get("ev.gens", 0)
         names = tuple(x for x in prog.params if x != selfname)
         out = []
-        for r in interp.inline(binder, argvals, st, caller, receiver=receiver, is_method=is_method, self_value=self_value, export_locals=(f"genobj.{n}.L", names)):
+        for r in interp.inline(binder, argvals, st, caller, receiver=receiver, is_method=is_method, self_value=self_value, closure_env=closure_env, export_locals=(f"genobj.{n}.L", names)):
             if r.kind == "exc":
                 out.append(r)
                 continue
             eff_receiver = receiver if receiver is not None else (caller.receiver if caller is not None else None)
-            s2 = r.state.set("ev.gens", n + 1).set(f"genobj.{n}", ("genstate", func, 0, None, (), (eff_receiver, self_value, bool(method))))
+            s2 = r.state.set("ev.gens", n + 1).set(f"genobj.{n}", ("genstate", func, 0, None, (), (eff_receiver, self_value, bool(method), tuple(closure_env))))
             out.append(val(("genobj", n), s2))
         return out
 
@@ -184,7 +184,7 @@ class LazyGenerators:
 
     # ------------------------------------------------------------------------------------------ stepping
     def _run_step(self, interp, n, prog, stepf, ctx, st, fr, extra=None):
-        receiver, self_value, method = ctx
+        receiver, self_value, method, closure_env = ctx
         selfname = prog.func.args.args[0].arg if method else None
         names = tuple(x for x in prog.locals if x != selfname)
         argvals = {x: st.get(f"genobj.{n}.L.{x}", UNBOUND) for x in names}
@@ -193,7 +193,7 @@ class LazyGenerators:
         key = f"gen.{fr.depth + 1}"
         saved = st.get(key, None) if st.has(key) else None
         out = []
-        for r in interp.inline(stepf, argvals, st.set(key, ()), fr, receiver=receiver, is_method=method, self_value=self_value, export_locals=(f"genobj.{n}.L", names)):
+        for r in interp.inline(stepf, argvals, st.set(key, ()), fr, receiver=receiver, is_method=method, self_value=self_value, closure_env=closure_env, export_locals=(f"genobj.{n}.L", names)):
             ys = r.state.get(key, ())
             s2 = r.state.set(key, saved) if saved is not None else type(st)(frozenset((k, v) for k, v in r.state.items if k != key), r.state.log)
             if any(k_.startswith("outparam.") for k_, _ in s2.items):
